@@ -9,7 +9,7 @@ EXTENDS IntPatterns, Json
 CONSTANTS DivClasses, QuoClasses, K, Seed
 
 TypePairs == << <<"U", "U">>, <<"I", "I">>, <<"U", "I">>, <<"I", "U">>, <<"U", "C">>, <<"I", "C">>, <<"I", "I">> >>
-BPats == <<"dense", "lowzero", "pow2", "ones", "pow2p1", "dense2", "alt">>
+BPats == <<"dense", "lowzero", "pow2", "ones", "pow2p1", "dense2", "alt", "hilo">>
 QPats == <<"dense", "ones", "pow2", "dense2", "pow2m1">>
 
 VARIABLES phase, cb, cq, k
@@ -23,15 +23,18 @@ Spec == Init /\ [][Next]_vars
 Salt == cb * 13 + cq * 5 + k * 17 + Seed
 Case ==
   LET tp == TypePairs[1 + (Salt % 7)]
-      bm == Mag(BPats[1 + ((Salt \div 3) % 7)], cb, Salt)
+      bm == Mag(BPats[1 + ((Salt \div 3) % 8)], cb, Salt)
       qm == Mag(QPats[1 + ((Salt \div 5) % 5)], cq, Salt + 3)
-      rsel == (Salt \div 7) % 4                       \* 0: r = 0, 1: r = 1, 2: r = b - 1, 3: dense r < b
+      rsel == (Salt \div 7) % 5                       \* 0: r = 0, 1: r = 1, 2: r = b - 1, 3: dense r < b, 4: see am
       rm == IF bm = <<>> THEN <<>>
             ELSE IF rsel = 0 THEN <<>>
             ELSE IF rsel = 1 THEN (IF Cmp(One, bm) < 0 THEN One ELSE <<>>)
             ELSE IF rsel = 2 THEN Sub(bm, One)
+            ELSE IF rsel = 4 THEN <<>>
             ELSE LET cand == Mag("dense2", cb, Salt + 9) IN (IF Cmp(cand, bm) < 0 THEN cand ELSE Shr(cand, 9))
-      am == Add(Mul(qm, bm), rm)
+      \* rsel = 4: dividend = (all ones of the quotient's length) shifted to just below the divisor's top bit:
+      \* the quotient estimated from the top words is then as far off as the algorithm allows
+      am == IF rsel = 4 /\ cb >= 1 THEN Shl(Mag("ones", cq, 0), 64 * cb - 1) ELSE Add(Mul(qm, bm), rm)
       sa == IF tp[1] = "U" THEN 0 ELSE (Salt \div 2) % 2
       sb == IF tp[2] = "I" THEN (Salt \div 11) % 2 ELSE 0
   IN [op |-> "divmod", lt |-> tp[1], rt |-> tp[2], a |-> I(sa, am), b |-> I(sb, bm)]
